@@ -169,3 +169,147 @@ def c16_float_vectors(seed, tier, rundir):
     with open(path, "w") as f:
         f.write("\n".join(out) + "\n")
     return {"XV_FLOAT_VECTORS": path}
+
+
+# ---------------------------------------------------------------------------------------------- sanitizer stages
+def _run_parallel(cmds, envs, cwd, timeout_s, ncpu=16):
+    """cmds: list of argv; returns list of (rc, stderr_text) in order; rc None = watchdog"""
+    procs, out = [], [None] * len(cmds)
+    pending = list(enumerate(cmds))
+    running = []
+    t0 = time.time()
+    while pending or running:
+        while pending and len(running) < ncpu:
+            i, c = pending.pop(0)
+            errf = open(os.path.join(cwd, "san-%d.stderr" % i), "wb")
+            p = subprocess.Popen(c, cwd=envs.get("cwd", ROOT), env=envs["env"], stdout=subprocess.DEVNULL, stderr=errf)
+            running.append((i, p, errf))
+        time.sleep(0.05)
+        for item in list(running):
+            i, p, errf = item
+            rc = p.poll()
+            if rc is None and time.time() - t0 > timeout_s:
+                p.kill()
+                p.wait()
+                rc = None
+            elif rc is None:
+                continue
+            running.remove(item)
+            errf.close()
+            out[i] = (rc, open(os.path.join(cwd, "san-%d.stderr" % i), "rb").read().decode("utf8", "replace"))
+    return out
+
+
+def memcheck_stage(prop, mode, cases_quick, cases_thorough):
+    """the release worker under valgrind memcheck on a sample of the same workload (other seed): invalid reads/writes,
+    uses of uninitialised values and definite leaks are reports; a report is a violation"""
+    def stage(seed, tier, rundir, log):
+        xv = os.path.join(TARGET, "release", "xv")
+        n = 16
+        per = (cases_quick if tier == "quick" else cases_thorough) // n
+        d = os.path.join(rundir, "memcheck")
+        os.makedirs(d, exist_ok=True)
+        cmds = []
+        for i in range(n):
+            out = os.path.join(d, "mc-%d.json" % i)
+            cmds.append(["valgrind", "-q", "--error-exitcode=99", "--leak-check=full", "--errors-for-leak-kinds=definite", "--num-callers=30",
+                         xv, prop, "--seed", str(seed * 1000 + 7), "--shard", str(i), "--nshards", str(n), "--cases", str(per), "--tier", tier, "--out", out]
+                        + (["--mode", mode] if mode else []))
+        env = dict(os.environ)
+        env["RUST_BACKTRACE"] = "0"
+        env["XV_CASE_CPU_LIMIT_S"] = "2000"
+        t0 = time.time()
+        res_all = _run_parallel(cmds, {"env": env}, d, 1500 if tier == "quick" else 10800)
+        results = []
+        reports = 0
+        for i, (rc, err) in enumerate(res_all):
+            outp = os.path.join(d, "mc-%d.json" % i)
+            if rc == 0 and os.path.exists(outp):
+                try:
+                    r = json_load(outp)
+                    r["counters"] = {"memcheck:" + k if not k.startswith("memcheck") else k: v for k, v in r["counters"].items() if k in ("evaluations",)}
+                    r["counters"]["memcheck_cases_without_report"] = r["cases"]
+                    r["sets"], r["max"], r["samples"], r["shapes"] = {}, {}, [], []
+                    r["cases"] = 0
+                    results.append(({}, r, None))
+                except Exception as e:
+                    results.append(({}, None, "memcheck shard %d: bad output %s" % (i, e)))
+            elif rc == 99:
+                reports += 1
+                blocks = [b for b in err.split("\n==") if "Invalid" in b or "uninitialised" in b or "definitely lost" in b or "Mismatched" in b]
+                first = ("==" + blocks[0])[:1500] if blocks else err[-1500:]
+                frames = [l.split(": ", 1)[-1].strip() for l in first.splitlines() if ("xeh::" in l or "/repo/" in l)]
+                sig = "%s:memcheck:%s" % (prop, (frames[0][:80] if frames else "report"))
+                r = _res()
+                r["violations"].append({"class": "memcheck", "sig": sig, "index": -1, "case": "valgrind memcheck, shard %d of the %s workload (seed %d)" % (i, prop, seed * 1000 + 7), "detail": first})
+                results.append(({}, r, None))
+            elif rc is None:
+                results.append(({}, None, "memcheck shard %d hit the watchdog (inconclusive)" % i))
+            elif "memory allocation of" in err:
+                r = _res()
+                _count(r, "memcheck_excluded_alloc_not_modest")
+                results.append(({}, r, None))
+            else:
+                results.append(({}, None, "memcheck shard %d exited with %s: %s" % (i, rc, err[-300:])))
+        note = "memcheck stage: %d valgrind processes x %d cases of %s%s in %.1fs, %d with reports" % (n, per, prop, "/" + mode if mode else "", time.time() - t0, reports)
+        return (note, results, {})
+    return stage
+
+
+def json_load(p):
+    import json
+    return json.load(open(p))
+
+
+def miri_stage(prop, mode, cases_per_proc, nprocs=16):
+    """the worker under the Miri interpreter (undefined behaviour, invalid aliasing in the unsafe parts and their
+    dependencies, leaks) on small cases: every monitor shrinks its workload when it runs under Miri. Thorough tier only."""
+    def stage(seed, tier, rundir, log):
+        d = os.path.join(rundir, "miri")
+        os.makedirs(d, exist_ok=True)
+        cwd = os.path.join(ROOT, "harness-san")
+        env = dict(os.environ)
+        env["CARGO_NET_OFFLINE"] = "true"
+        env["MIRIFLAGS"] = "-Zmiri-disable-isolation"
+        env["RUST_BACKTRACE"] = "0"
+        t0 = time.time()
+        # build once (an unknown property makes the worker exit at once)
+        b = subprocess.run(["cargo", "+nightly", "miri", "run", "--offline", "--quiet", "--", "C00"], cwd=cwd, env=env, stdout=subprocess.PIPE, stderr=subprocess.STDOUT, text=True)
+        if "unknown property" not in b.stdout:
+            return ("miri stage: build failed", [({}, None, "miri stage: the interpreter build failed (inconclusive): %s" % b.stdout[-400:])], {})
+        cmds = []
+        for i in range(nprocs):
+            out = os.path.join(d, "miri-%d.json" % i)
+            cmds.append(["cargo", "+nightly", "miri", "run", "--offline", "--quiet", "--", prop, "--seed", str(seed * 100 + 3), "--shard", str(i), "--nshards", str(nprocs),
+                         "--cases", str(cases_per_proc), "--tier", tier, "--out", out] + (["--mode", mode] if mode else []))
+        res_all = _run_parallel(cmds, {"env": env, "cwd": cwd}, d, 7200)
+        results = []
+        reports = 0
+        for i, (rc, err) in enumerate(res_all):
+            outp = os.path.join(d, "miri-%d.json" % i)
+            if rc == 0 and os.path.exists(outp):
+                r = json_load(outp)
+                keep = {"miri_cases_without_report": r["cases"]}
+                viol = r["violations"]
+                r = _res()
+                r["counters"] = keep
+                r["violations"] = viol
+                results.append(({}, r, None))
+            elif rc is None:
+                results.append(({}, None, "miri process %d hit the watchdog (inconclusive)" % i))
+            elif "Undefined Behavior" in err or "memory leaked" in err or "error: " in err:
+                reports += 1
+                lines = err.splitlines()
+                k = next((j for j, l in enumerate(lines) if "Undefined Behavior" in l or "memory leaked" in l or l.startswith("error")), 0)
+                first = "\n".join(lines[k:k + 25])
+                where = next((l.strip() for l in lines[k:] if "/repo/src" in l or "xeh::" in l), "report")
+                r = _res()
+                r["violations"].append({"class": "miri", "sig": "%s:miri:%s" % (prop, where[:90]), "index": -1,
+                                        "case": "Miri, process %d of the %s%s workload (seed %d, %d small cases)" % (i, prop, "/" + mode if mode else "", seed * 100 + 3, cases_per_proc),
+                                        "detail": first[:1800]})
+                results.append(({}, r, None))
+            else:
+                results.append(({}, None, "miri process %d exited with %s: %s" % (i, rc, err[-300:])))
+        note = "miri stage: %d interpreter processes x %d small cases of %s%s in %.0fs, %d with reports" % (nprocs, cases_per_proc, prop, "/" + mode if mode else "", time.time() - t0, reports)
+        return (note, results, {})
+    return stage
